@@ -8,6 +8,8 @@
 (*   {"a":"write","d":digest,"len":bytes emitted}       (digest: hash of the frame's abstract projection)        *)
 (*   {"a":"read","d":digest of what was obtained,"pos":bytes consumed so far,"full":bool}                        *)
 (*            (full = FALSE: only the header was decoded and the body discarded; the digest is then not compared) *)
+(*   {"a":"refused","d":error}                          the encoder refused a frame (its contents are within   *)
+(*                                                      what the notations can carry: never expected)           *)
 (*   {"a":"end","left":bytes left in the stream}                                                                  *)
 (* The specification is the FIFO of FrameStream.tla: what is read is what was written, in order (C01), every      *)
 (* read leaves the reader exactly at a frame boundary - the sum of the emitted lengths (C03 / C05) - and nothing  *)
@@ -44,6 +46,7 @@ Step ==
                       ELSE IF e.pos # pos + w.len THEN Reject("not-at-boundary")
                       ELSE UNCHANGED bad
                    /\ UNCHANGED <<sent, cur>>
+         [] e.a = "refused" -> /\ Reject("encoder-refused") /\ UNCHANGED <<sent, nread, pos, cur>>
          [] e.a = "end" ->
               /\ IF nread # Len(sent) THEN Reject("frames-missing")
                  ELSE IF e.left # 0 THEN Reject("bytes-left-over")
